@@ -194,6 +194,9 @@ func harnesses() []harness {
 			reader := func() {
 				v, err := t3.Get([]byte("b"))
 				expectGet(&rr, "reader v3.Get(b)", v, err, c06Contents[3], "b")
+				// c is UPDATED by the next version: a lookup must never return the next version's value
+				v, err = t3.Get([]byte("c"))
+				expectGet(&rr, "reader v3.Get(c)", v, err, c06Contents[3], "c")
 				_, v2, err := t3.GetWithIndex([]byte("c"))
 				expectGet(&rr, "reader v3.GetWithIndex(c)", v2, err, c06Contents[3], "c")
 				h, err := t3.Has([]byte("d"))
